@@ -49,4 +49,7 @@ RULES = [
     ("P10s", pool2.P10_aspects("spawn", "keeps"), ["default"]),
     # the hand-back of a released connection is never skipped under lock contention
     ("P16b", pool2.no_try_lock, ["default"]),
+    # a cancelled attempt releases its dependants only: a request dialing for itself keeps its place in the queue (and so
+    # still takes a connection freed later)
+    ("P11", pool2.P11, ["default"]),
 ]
